@@ -549,6 +549,7 @@ void mv_wait_until_changed(const volatile void * addr, size_t sz) {
   myth_yield();
 }
 
+__attribute__((weak)) int mv_is_fine = 0;
 void mv_spin_until_changed(const volatile void * addr, size_t sz) { mythv_spin(mythv_p_user + 1, addr, sz); }
 
 static size_t mv_req_stacksize;
